@@ -381,7 +381,7 @@ func (mc *MemoryChannel) copyAofFrom(seg *memorySegment, offset int64, pipew pip
 			continue
 		}
 		if errors.Is(err, io.EOF) {
-			next := mc.nextAofSegment(current.left)
+			next := mc.nextAofSegment(current)
 			if next == nil {
 				return nil
 			}
@@ -394,11 +394,15 @@ func (mc *MemoryChannel) copyAofFrom(seg *memorySegment, offset int64, pipew pip
 	}
 }
 
-func (mc *MemoryChannel) nextAofSegment(left int64) *memorySegment {
+// nextAofSegment returns the segment that follows current in the index. The
+// segment is looked up by identity: after a reset a new history may hold a
+// segment with the same left offset, which a reader of the old history must not
+// follow.
+func (mc *MemoryChannel) nextAofSegment(current *memorySegment) *memorySegment {
 	mc.mux.RLock()
 	defer mc.mux.RUnlock()
 	for i := 0; i < len(mc.aofSegs)-1; i++ {
-		if mc.aofSegs[i].left == left {
+		if mc.aofSegs[i] == current {
 			return mc.aofSegs[i+1]
 		}
 	}
